@@ -22,6 +22,7 @@ import json
 import logging
 import os
 import random
+import re
 from typing import Any, Callable, Iterable
 
 from .. import leanio, pyextract
@@ -1772,6 +1773,19 @@ def random_decl(rng: random.Random, cls: str) -> tuple[dict, str]:
                  rf=True if cls == "spawning" else None, bound=bound), kind
 
 
+FIELD2 = ["spec", "g"]                     # a second field, for one function registered for two fields
+
+
+def doc_id(env: Env, h: dict, explicit: bool, prefix: str | None = None, fn: Any = None) -> str:
+    """the handler id as documented: "the function's name by default unless overridden" (docs/resources.rst), "the
+    field name is part of the handler id (e.g., "fn/spec.field")" (docs/filters.rst), a sub-handler's id under its
+    parent's (docs/handlers.rst). Written from the docs, not read off the handler kopf built: a registration that
+    ends up under another id is deduplicated with (or told apart from) the wrong registrations."""
+    base = h["id"] if explicit else getattr(fn if fn is not None else env.fn_of(h), "__qualname__")
+    # (an index handler's id is the index's name: "the name of the function or its id= option" -- docs/indexing.rst)
+    return (prefix + "/" if prefix else "") + base + ("/" + ".".join(h["f"]) if h["f"] and h["_cls"] != "indexing" else "")
+
+
 def check_decorated(env: Env, rec: Rec, real: Any, h: dict, kind: str) -> None:
     """the decorator built the handler the declaration says (kind → reason/initial/field_needs_change/finalizer)"""
     got = {"r": None if getattr(real, "reason", None) is None else real.reason.value, "i": bool(getattr(real, "initial", None)),
@@ -1793,7 +1807,10 @@ def run_select_case(env: Env, rec: Rec, case: dict, driver_reqs: list, pending: 
         h.setdefault("func", h["fn"])
         h.setdefault("_bound", None)
         real = env.decorate(registry, h, kind, explicit_id=explicit)
-        h["id"] = str(real.id)         # generated ids (fn name + field suffix) are read off the real handler
+        # the id the DOCS give this registration (function name or id=, plus the field): what the oracle and the
+        # model go by; the id of the handler kopf built is compared with it (tie)
+        h["id"] = doc_id(env, h, explicit)
+        rec.compare(f"kopf.on.{kind} → handler id", str(real.id), h["id"], {"kind": "select", "case": case, "registration": n_})
         if h.get("_bound") is not None:   # a fresh bound-method object per registration; one function
             h["fn"], h["func"] = 1000 + n_, 50 + h["_bound"]
         check_decorated(env, rec, real, h, kind)
@@ -1820,6 +1837,8 @@ def run_select_case(env: Env, rec: Rec, case: dict, driver_reqs: list, pending: 
     dup_regs = len(hs) - len({(h["func"], h["id"]) for h in hs})
     rec.count("duplicate (function,id) registrations", dup_regs)
     rec.count("bound-method registrations", sum(1 for h in hs if h.get("_bound") is not None))
+    rec.count("one function registered for several fields (ids by kopf)",
+              max([0] + [len({tuple(h["f"] or []) for h in hs if h["func"] == f_}) for f_ in {h["func"] for h in hs}]))
     replay = {"kind": "select", "case": case, "impl": got_idx}
     # oracle: invoked once; exactly the handlers whose declared criteria (and cause kind) hold
     if len(set(got_keys)) != len(got_keys):
@@ -1874,6 +1893,26 @@ def random_select_case(rng: random.Random) -> dict:
         else:
             h, kind = random_decl(rng, cls)
             handlers.append((h, kind, rng.random() < 0.6))
+    # one function registered for TWO fields through two decorators, the ids left to kopf: "since the field name is part of
+    # the handler id (e.g. "fn/spec.field"), multiple decorators can be defined to react to different fields with the
+    # same function, and it will be invoked multiple times" (docs/filters.rst)
+    og = ng = None
+    twin = rng.random() < 0.2
+    if twin:
+        k_ = rng.randrange(len(handlers))
+        h0, k0, _ = handlers[k_]
+        if not h0["f"]:
+            h0["f"] = FIELD
+            h0["v"] = rng.choice(CRITS)
+        h1 = dict(h0, f=FIELD2)
+        if h0["v"] is None and k0 in ("update", "field"):
+            h1["o"], h1["n"] = rng.choice(CRITS), rng.choice(CRITS)
+        else:
+            h1["v"] = rng.choice(CRITS)
+        handlers[k_] = (h0, k0, False)
+        handlers.insert(rng.randint(k_ + 1, len(handlers)), (h1, k0, False))
+        og, ng = rng.choice(VALS), rng.choice(VALS)
+    sp2 = lambda fv, gv: dict(spec_of(fv), **({} if gv is None else {"g": gv}))
     lv, av = rng.choice(VALS + ["x", ""]), rng.choice(VALS + ["x", ""])
     ov, nv = rng.choice(VALS + [NOOLD] + FALSY[:3]), rng.choice(VALS + FALSY)
     if cls == "changing":
@@ -1893,13 +1932,16 @@ def random_select_case(rng: random.Random) -> dict:
                 ov = rng.choice([v for v in VALS + FALSY[:3] if v != nv]) if ov == NOOLD or ov == nv else ov
             elif reason == "delete" and rng.random() < 0.7:
                 ov = rng.choice([v for v in VALS + FALSY[:3] if v != nv]) if ov == NOOLD or ov == nv else ov
+        if twin and reason in ("resume", "noop"):
+            og = ng
         st = state(cls, labels={} if lv is None else {LK: lv}, annotations={} if av is None else {AK: av},
-                   body_extra={"spec": spec_of(nv)}, old=None if ov == NOOLD else {"spec": spec_of(ov)}, new={"spec": spec_of(nv)},
+                   body_extra={"spec": sp2(nv, ng)}, old=None if ov == NOOLD else {"spec": sp2(ov, og)}, new={"spec": sp2(nv, ng)},
                    reason=reason, initial=initial, marked=reason == "delete" or rng.random() < 0.15)
     else:
         st = state(cls, labels={} if lv is None else {LK: lv}, annotations={} if av is None else {AK: av},
-                   body_extra={"spec": spec_of(nv)})
-    ids_ = sorted({(h["id"] if e else (f"Env.__init__.<locals>.Ops.m{h['_bound']}" if h.get("_bound") is not None else f"fn{h['fn']}")) + ("/" + ".".join(h["f"]) if h["f"] else "") for h, _, e in handlers})
+                   body_extra={"spec": sp2(nv, ng)})
+    ids_ = sorted({(h["id"] if e else (f"Env.__init__.<locals>.Ops.m{h['_bound']}" if h.get("_bound") is not None else f"fn{h['fn']}"))
+                   + ("/" + ".".join(h["f"]) if h["f"] and cls != "indexing" else "") for h, _, e in handlers})
     excluded = [i for i in ids_ if rng.random() < 0.25] if cls != "changing" or rng.random() < 0.3 else []
     return {"cls": cls, "handlers": handlers, "state": st, "excluded": excluded}
 
@@ -2056,7 +2098,8 @@ def split_subtrace(trace: list) -> dict:
 
 
 def judge_subs(env: Env, rec: Rec, *, parent_kind: str, via: str, subs: list[dict], seen: dict | None, st: dict, judged: bool,
-               replay: dict, reqs: list, pending: list, n_: Any, released: bool | None = None, parent_field: bool = False) -> None:
+               replay: dict, reqs: list, pending: list, n_: Any, released: bool | None = None, parent_field: bool = False,
+               parent_id: str | None = None) -> None:
     """one run of a parent with sub-handlers: the real sub-registry against the declarations (decorator tie),
     the selected sub-handlers against the oracle (both directions) and the model, the invoked against the
     selected."""
@@ -2082,6 +2125,10 @@ def judge_subs(env: Env, rec: Rec, *, parent_kind: str, via: str, subs: list[dic
     hs = []
     for k, (sp, real) in enumerate(zip(subs, reals)):
         h = dict(sp, id=str(real.id))
+        if parent_id is not None:      # the documented id: under the parent's, the function's name unless id= is given, plus the field
+            fn_ = env.sub_temp if sp.get("_behave") == "temp" else env.subfns[sp["fn"] % len(env.subfns)]
+            h["id"] = doc_id(env, dict(sp, id=sp["_id"]), sp["_id"] is not None and via != "execute-list", prefix=parent_id, fn=fn_)
+            rec.compare(f"sub-handler via {via} in on.{parent_kind} → handler id", str(real.id), h["id"], {"input": replay})
         check_decorated(env, rec, real, h, f"sub-handler via {via} in on.{parent_kind}")
         if real.selector is not None:
             rec.tie_fail("a sub-handler has a selector", {"input": replay})
@@ -2171,7 +2218,7 @@ async def run_subselect_case(env: Env, rec: Rec, case: dict, reqs: list, pending
     judged = bool(pv) and doc_gate(ph, st) and cause_constructible(st)
     seen = split_subtrace(env.subtrace).get("p")
     judge_subs(env, rec, parent_kind=pkind, via=via, subs=subs, seen=seen, st=st, judged=judged, replay=replay,
-               reqs=reqs, pending=pending, n_="p", parent_field=bool(ph["f"]))
+               reqs=reqs, pending=pending, n_="p", parent_field=bool(ph["f"]), parent_id=doc_id(env, ph, True))
 
 
 def sub_states() -> list[dict]:
@@ -2293,6 +2340,7 @@ SEL_CALLABLES: dict[str, Callable[[Any], bool]] = {
     "core": lambda r: r.group == "",
 }
 EVERYTHING = "*EVERYTHING*"
+K8S_VERSION = re.compile(r"v\d+(?:(?:alpha|beta)\d+)?")      # "v1", "v1beta1", "v2alpha3": Kubernetes' API version names
 
 
 def selector_notations() -> list[dict]:
@@ -2305,6 +2353,10 @@ def selector_notations() -> list[dict]:
         ["apps", "v1", "deployments"], ["apps/v1", "deployments"], ["", "v1", "pods"], ["v1", "pods"], ["v1", "events"], ["v1", "kopfexamples"],
         ["kopf.dev", "kopfexamples"], ["apps", "deployments"], ["zalando.org", "kopfexamples"], ["events.k8s.io", "events"], ["metrics.k8s.io", "pods"],
         ["kopfexamples.kopf.dev"], ["deployments.apps"], ["pods.metrics.k8s.io"], ["kopfexamples.zalando.org"],
+        # kubectl's `name.version[.group]` ("pods.v1  # GOOD, specific", `pods.v1beta1.metrics.k8s.io` in docs/resources.rst)
+        ["pods.v1"], ["events.v1"], ["kopfexamples.v1"], ["kopfexamples.v1.kopf.dev"], ["kopfexamples.v1beta1.kopf.dev"],
+        ["kex.v1.kopf.dev"], ["kopfexamples.v2.kopf.dev"], ["deployments.v1.apps"], ["pods.v1beta1.metrics.k8s.io"],
+        ["events.v1.events.k8s.io"], ["kopfexamples.v1.zalando.org"], ["things.v2.example.com"], ["pods.v1beta1"],
         ["kopf.dev", "v1", EVERYTHING], ["kopf.dev/v1", EVERYTHING], ["kopf.dev", EVERYTHING], ["v1", EVERYTHING], ["events.k8s.io", EVERYTHING],
         ["events.k8s.io/v1beta1", EVERYTHING], [EVERYTHING])]
     out += [{"args": [], "kw": kw} for kw in (
@@ -2344,6 +2396,13 @@ def doc_selector(decl: dict, r: dict, dev: frozenset = frozenset()) -> bool:
             group, version = "", "v1"
         elif len(rest) == 1:
             group = rest[0]                                      # "treated as an API group"
+        elif name != EVERYTHING and "." in name and K8S_VERSION.fullmatch(name.split(".")[1]):
+            # kubectl's semantics: name.version.group; for `name.version` alone the docs give one example, "pods.v1",
+            # beside `('v1', 'pods')`: whether a missing group means the core group ("v1 ... is equivalent to an empty
+            # API group name") or any group is not said -- `dev` "name_version_is_core" switches to the former
+            parts = name.split(".", 2)
+            name, version = parts[0], parts[1]
+            group = parts[2] if len(parts) > 2 else ("" if "name_version_is_core" in dev and version == "v1" else group)
         elif name != EVERYTHING and "." in name:                 # kubectl's semantics: name.group
             name, group = name.split(".", 1)
     if group is not None and r["group"] != group:
@@ -2394,7 +2453,9 @@ def run_selectors(env: Env, rec: Rec, reqs: list, pending: list) -> None:
             rec.evaluations += 1
             rec.count("selector.check", got)
             rec.nontrivial.add(f"sel|{leanio.canon(decl)}|{r['group']}/{r['version']}/{r['plural']}|{int(got)}")
-            if "obj" not in decl:
+            if "obj" not in decl and doc_selector(decl, r) != doc_selector(decl, r, frozenset({"name_version_is_core"})):
+                rec.count("oracle", "not judged (selector `name.v1` without a group: the core group or any group?)")
+            elif "obj" not in decl:
                 want = doc_selector(decl, r)
                 if got != want and doc_selector(decl, r, frozenset({"events_k8s"})) == got:
                     # OBSERVATION, not a finding (docs-only): the code's exclusion of the Event kind from
@@ -2441,6 +2502,8 @@ def carried_mode(v: Any) -> str | None:
 STEP_KEYS = ("label", "annotation", "field", "stored", "event", "own_finalizer", "foreign_finalizer", "marked", "carried",
              "records", "timed")
 TOUCH_ONLY = {"metadata": {"annotations": {"kopf.zalando.org/touch-dummy": None}}}
+DEFAULT_FINALIZER = "kopf.zalando.org/KopfFinalizerMarker"      # docs/configuration.rst: the default of settings.persistence.finalizer
+CONFIGURED_FINALIZER = "example.com/cfg-finalizer"
 LEFTOVER = {"started": "2020-01-01T00:00:00.000000+00:00", "retries": 1}    # a handler in the middle of its retries
 
 
@@ -2598,7 +2661,8 @@ def random_cycle_case(rng: random.Random) -> dict:
             "event": rng.choice(["ADDED", "MODIFIED", "MODIFIED", None, None, "DELETED"]),
             "own_finalizer": rng.random() < 0.3, "foreign_finalizer": rng.random() < 0.2,
             "marked": rng.random() < 0.25, "stopped": [], "carried": rng.choice([False] * 7 + ["ops", "ops", "fulfilled"]),
-            "resumed": resumed, "records": random_records(rng, hs), "timed": rng.random() < 0.2}
+            "resumed": resumed, "records": random_records(rng, hs), "timed": rng.random() < 0.2,
+            "finalizer": rng.choice([None, None, CONFIGURED_FINALIZER])}
 
 
 def random_records(rng: random.Random, hs: list, p: float = 0.35) -> list:
@@ -2651,6 +2715,9 @@ def leftover_scenarios() -> list[dict]:
                             "stored": "y" if kind in ("update", "field") else NOOLD, "event": event, "own_finalizer": fin,
                             "foreign_finalizer": False, "marked": kind == "delete", "stopped": [], "carried": carried,
                             "resumed": [], "records": recs, "timed": False})
+                if fin and not recs:   # the leftover finalizer under a CONFIGURED name, kopf's default name being somebody else's
+                    out.append(dict(out[-1], finalizer=CONFIGURED_FINALIZER, foreign_finalizer=True))
+                    out.append(dict(out[-1], label="x"))
     return out
 
 
@@ -2669,7 +2736,7 @@ def random_sequence_case(rng: random.Random) -> dict:
                       "foreign_finalizer": False, "marked": k > 2 and rng.random() < 0.15, "carried": False,
                       "records": "follow", "timed": False,   # the progress records kopf itself wrote in the previous cycles
                       "wait": rng.choice([0, 0.01, 0.01, 0.08])})   # 0: the daemon may not even have started yet
-    return {"handlers": hs, "steps": steps, "real_daemons": True, "stopped": []}
+    return {"handlers": hs, "steps": steps, "real_daemons": True, "stopped": [], "finalizer": rng.choice([None, None, CONFIGURED_FINALIZER])}
 
 
 def random_leftover_sequence(rng: random.Random) -> dict:
@@ -2719,6 +2786,8 @@ async def run_cycle_case(env: Env, rec: Rec, case: dict, driver_reqs: list, pend
     settings.posting.enabled = False
     settings.background.cancellation_polling = 0.02
     settings.background.instant_exit_timeout = 0.005
+    if case.get("finalizer"):          # a configured finalizer name (else kopf's default)
+        settings.persistence.finalizer = case["finalizer"]
     fin = settings.persistence.finalizer
     registry = env.registries.OperatorRegistry()
     real_daemons = bool(case.get("real_daemons", False))
@@ -2729,7 +2798,8 @@ async def run_cycle_case(env: Env, rec: Rec, case: dict, driver_reqs: list, pend
             sb = h["_subs"]
             override = make_parent_fn(env, n_, h["fn"], sb["subs"], sb["via"], bool(sb.get("explicit")))
         real = env.decorate(registry, h, kind, explicit_id=True, param=n_, fn_override=override)
-        hs.append(dict(h, id=str(real.id)))
+        hs.append(dict(h, id=doc_id(env, h, True)))
+        rec.compare(f"kopf.on.{kind} → handler id", str(real.id), hs[-1]["id"], {"kind": "cycle", "case": case, "registration": n_})
     by_param = {n_: h for n_, h in enumerate(hs)}
     steps = case.get("steps") or [{k: case.get(k) for k in STEP_KEYS} | {"resumed": case.get("resumed")}]
     memories = env.inventory.ResourceMemories()
@@ -2789,7 +2859,9 @@ async def _one_cycle(env: Env, rec: Rec, case: dict, k: int, step: dict, own_fin
                 status_progress[rid] = record
     if ann:
         meta["annotations"] = ann
-    fins = (["other.io/f"] if step["foreign_finalizer"] else []) + ([fin] if own_fin else [])
+    # somebody else's finalizers; under a configured name kopf's DEFAULT name is somebody else's as well
+    fins = (["other.io/f"] + ([DEFAULT_FINALIZER] if fin != DEFAULT_FINALIZER else []) if step["foreign_finalizer"] else []) \
+        + ([fin] if own_fin else [])
     if fins:
         meta["finalizers"] = fins
     if step["marked"]:
@@ -2923,7 +2995,9 @@ async def _one_cycle(env: Env, rec: Rec, case: dict, k: int, step: dict, own_fin
     # a carried transformation is RE-SENT: it is in the cycle's patch and still has something to change in the object
     resent = any(getattr(f, "func", f).__name__ in CARRIED_NAMES and changes(f) for f in patch.fns)
     impl = {"carried": resent, "watch": sorted(watch_called), "spawn": sorted(obs["spawn"] or []),
-            "fins": [{"block_deletion": "fin+", "allow_deletion": "fin-"}.get(f, f) for f in fns if f not in CARRIED_NAMES],
+            "fins": [{"block_deletion": "fin+", "allow_deletion": "fin-"}.get(n_, n_) + ("" if a_ in (None, fin) else f"({a_})")
+                     for n_, a_ in ((getattr(f, "func", f).__name__, (getattr(f, "keywords", None) or {}).get("finalizer"))
+                                    for f in patch.fns) if n_ not in CARRIED_NAMES],
             "handle": sorted(changing_called) if handled else None,
             "touch": touched and not handled,        # (what the handling leaves in the patch is C02's: not compared)
             "purge": purged if not handled else [],  # (likewise: the purges of process_changing_cause are C02's/C03's)
@@ -2954,7 +3028,85 @@ async def _one_cycle(env: Env, rec: Rec, case: dict, k: int, step: dict, own_fin
         return {"_cls": cls, "ch": cls == "changing", "l": labels, "a": annotations, "b": body, "o": None, "n": None,
                 "r": "noop", "i": False, "m": step["marked"]}
     sts = {cls: st_for(cls) for cls in ("watching", "spawning", "changing")}
-    object_level = [doc_prematch(h, sts[h["_cls"]]) for h in hs]
+    # ---- the ORACLE's own reading of the object (not kopf's cause): the current value of a field is the object's, the
+    # old value is the last-handled state's (what this harness wrote into the annotation: `stored`); kopf's essence of
+    # the object must give the criteria the same values (the fields of the resource's handlers are part of it:
+    # `get_extra_fields`, also outside spec -- "status.s")
+    stored = step["stored"]
+    ind_old = None if stored == NOOLD else (body_before if stored == "SAME" else {"spec": spec_of(stored)})
+    doc_sts = dict(sts)
+    if cs.changing_cause is not None:
+        doc_sts["changing"] = dict(sts["changing"], o=ind_old, n=body_before)
+        for h in hs:
+            if h["_cls"] == "changing" and h["f"] and (h["_sel"] is None or h["sel"]):
+                seen_v = [doc_resolve(sts["changing"]["n"], h["f"]), MISSING if sts["changing"]["o"] is None else doc_resolve(sts["changing"]["o"], h["f"])]
+                real_v = [doc_resolve(body_before, h["f"]), MISSING if ind_old is None else doc_resolve(ind_old, h["f"])]
+                if (sts["changing"]["o"] is None) != (ind_old is None) or not all(
+                        (a_ is MISSING and b_ is MISSING) or (a_ is not MISSING and b_ is not MISSING and strict_eq(a_, b_))
+                        for a_, b_ in zip(seen_v, real_v)):
+                    rec.oracle_fail(f"the criteria of handler {h['id']} on field {'.'.join(h['f'])} are decided on new/old = {seen_v}, "
+                                    f"the object's current value / the last-handled one are {real_v}", replay,
+                                    {"site": "processing._detect_causes", "shape": "a field criterion is decided on a value that is not the object's"})
+    # ---- the finalizers after the cycle's requests: only the CONFIGURED name is the framework's to add or remove
+    after_all = json.loads(json.dumps(body_before))
+    for a_, fns_ in zip(obs["applied"], applied_fns):
+        after_all = merge_patch(after_all, a_["patch"])
+        for f_ in fns_:
+            f_(after_all)
+    fins0 = list(body_before.get("metadata", {}).get("finalizers") or [])
+    fins1 = list((after_all.get("metadata") or {}).get("finalizers") or [])
+    if [x for x in fins0 if x != fin] != [x for x in fins1 if x != fin]:
+        rec.oracle_fail(f"finalizers {fins0} -> {fins1}: the framework's finalizer is {fin!r} (settings.persistence.finalizer), "
+                        f"no other one is its to add or remove", replay,
+                        {"site": "processing.process_resource_causes", "shape": "a finalizer other than the configured one is added or removed"})
+    rec.count("cycle: finalizer name", "configured" if fin != DEFAULT_FINALIZER else "default")
+    # ---- "for every event the set of handlers invoked is exactly the set whose declared criteria all hold", on the
+    # whole cycle: on.event handlers (every event, DELETED included), daemons/timers handed to the spawner (not
+    # for an object in deletion or gone), change handlers (soundness always; completeness when the cycle is one in
+    # which kopf owes the invocation: see `owed`)
+    verdicts = {h["id"]: doc_match(h, doc_sts[h["_cls"]]) for h in hs}
+    if all(v is not None for v in verdicts.values()):
+        def ids_of(cls: str, dev: frozenset = frozenset()) -> list:
+            return sorted(h["id"] for h in hs if h["_cls"] == cls and doc_match(h, doc_sts[cls], dev)
+                          and (cls != "changing" or doc_gate(h, doc_sts[cls])))
+        want_w = ids_of("watching")
+        if sorted(watch_called) != want_w:
+            rec.oracle_fail(f"on.event handlers invoked for this {step['event']} event: {sorted(watch_called)}; their declared criteria "
+                            f"select {want_w}", replay,
+                            {"site": "processing.process_watching_cause", "shape": "the on.event handlers invoked are not those whose declared criteria hold"})
+        if step["event"] != "DELETED":
+            want_s = [] if step["marked"] else [i for i in ids_of("spawning") if i not in pre_stopped]
+            if sorted(obs["spawn"] or []) != want_s:
+                rec.oracle_fail(f"daemons/timers handed to the spawner: {sorted(obs['spawn'] or [])}; their declared criteria select {want_s}"
+                                f"{' (the object is in deletion)' if step['marked'] else ''}", replay,
+                                {"site": "processing.process_spawning_cause", "shape": "the daemons/timers spawned are not those whose declared criteria hold"})
+        reason_ = sts["changing"]["r"]
+        handler_reason = cs.changing_cause is not None and reason_ in ("create", "update", "delete", "resume")
+        want_c = ids_of("changing") if handler_reason else []
+        if len(set(changing_called)) != len(changing_called):
+            rec.oracle_fail(f"a change handler was invoked twice in one cycle: {changing_called}", replay,
+                            {"site": "processing.process_changing_cause", "shape": "a handler is invoked twice for one cause"})
+        extra = sorted(set(changing_called) - set(want_c))
+        if extra:
+            sig = next((s for dev, s in DEVIATIONS if handler_reason and not set(changing_called) - set(ids_of("changing", dev))), None)
+            rec.oracle_fail(f"change handlers {extra} were invoked for a {reason_} cause although their declared criteria (or their "
+                            f"kind) do not hold: invoked {sorted(changing_called)}, the criteria select {want_c}", replay,
+                            sig or {"site": "processing.process_changing_cause", "shape": "a change handler is invoked although a declared criterion fails"})
+        # owed: the cycle is not given to a finalizer edit, does not exit early for a carried patch; the handler has
+        # no progress record on the object (a started handler may be asleep or finished: C02's), is not a resuming
+        # handler that has finished in this process already (/repo 6c4463d); all-at-once lifecycle (as passed in)
+        owed = [i for i in want_c if i not in present and not (i in pre_resumed and any(h["id"] == i and h["i"] for h in hs))]
+        if handler_reason and not carried and (handled or not impl["fins"]) and step["event"] != "DELETED":
+            missing = sorted(set(owed) - set(changing_called))
+            rec.count("cycle: change handlers owed / invoked", f"{min(len(owed), 3)} / {min(len(changing_called), 3)}")
+            if missing:
+                rec.oracle_fail(f"change handlers {missing} were not invoked for a {reason_} cause although their declared criteria "
+                                f"hold (no progress record on the object, nothing carried, no finalizer cycle): invoked "
+                                f"{sorted(changing_called)}, handled={handled}", replay,
+                                {"site": "processing.process_changing_cause", "shape": "a change handler whose declared criteria hold is not invoked"})
+    else:
+        rec.count("oracle", "undefined (cycle: invoked = criteria)")
+    object_level = [doc_prematch(h, doc_sts[h["_cls"]]) for h in hs]
     if all(v is not None for v in object_level):
         nobody = not any(object_level)
         rec.count("cycle: matched by no handler", nobody)
@@ -3005,6 +3157,9 @@ async def _one_cycle(env: Env, rec: Rec, case: dict, k: int, step: dict, own_fin
                     and any(q_ in allowed for q_ in removed if q_[:len(p_)] == p_))]
                 return (not strays), f"removed although not an own progress record on the object: {strays}"
             conforming, why = sent()
+            if conforming and own_fin and step["event"] != "DELETED" and fin in fins1:
+                # "no finalizer": the framework's own finalizer does not stay on an object nothing matches
+                conforming, why = False, f"the framework's finalizer {fin!r} is left on the object"
             unchanged = conforming and all(
                 merge_patch(body_before, a_["patch"]) == body_before and not any(changes(f_) for f_ in fns_)
                 for a_, fns_ in zip(obs["applied"], applied_fns))
@@ -3017,7 +3172,7 @@ async def _one_cycle(env: Env, rec: Rec, case: dict, k: int, step: dict, own_fin
                     and sent(skip_fn="carried_user_fn")[0]
                 only_touch = quiet and touched and lingering and sent(skip_touch=True)[0]
                 sig = FINDING_CARRIED if only_carried else FINDING_TOUCH if only_touch else next(
-                    (s for dev, s in DEVIATIONS if any(doc_prematch(h, sts[h["_cls"]], dev) for h in hs)), None)
+                    (s for dev, s in DEVIATIONS if any(doc_prematch(h, doc_sts[h["_cls"]], dev) for h in hs)), None)
                 rec.oracle_fail(f"an object matched by no handler was touched: patch={patch_dict} fns={fns} touch-dummy={touched} "
                                 f"invoked={called} spawned={obs['spawn']}: {why}",
                                 replay, sig or {"site": "processing.process_resource_causes", "shape": "unmatched object touched"})
@@ -3049,7 +3204,8 @@ async def _one_cycle(env: Env, rec: Rec, case: dict, k: int, step: dict, own_fin
         sb = h["_subs"]
         kind_ = case["handlers"][n_][1]
         judge_subs(env, rec, parent_kind=kind_, via=sb["via"], subs=sb["subs"], seen=sub_runs[n_], st=sts["changing"], judged=True,
-                   replay=replay, reqs=driver_reqs, pending=pending, n_=n_, released=released, parent_field=bool(h["f"]))
+                   replay=replay, reqs=driver_reqs, pending=pending, n_=n_, released=released, parent_field=bool(h["f"]),
+                   parent_id=h["id"])
         if released and any(x[0] == "temp" for x in sub_runs[n_]["ran"]):
             rec.oracle_fail("the finalizer was released in the cycle in which a sub-handler of the deletion handler asked to be retried",
                             replay, {"site": "processing.process_resource_causes",
